@@ -155,6 +155,8 @@ Fixpoint c13_encodes (h : list (sop * sres)) : bool :=
   match h with
   | [] => true
   | (SHeadsEncode heads limit, RHeadItems items len) :: rest => encode_ok heads limit items len && c13_encodes rest
+  (* nothing at all fits: an error, never an over-long encoding *)
+  | (SHeadsEncode _ (Some L), RFail) :: rest => (L <? items_size []) && c13_encodes rest
   | (SHeadsEncode _ _, _) :: _ => false
   | _ :: rest => c13_encodes rest
   end.
